@@ -159,4 +159,7 @@ def exotic_shapes() -> list[Any]:
         R("VNcKid", kid=L(), trivia=(L(), R("VNcKid", kid=L())), main=L()),  # child fields declared compare=False
         R("VKids", func=R("VKids", func=L(), children=(L(),)), children=()),  # a child field named `children`, empty while another child field is set
         R("VMany", items=(R("VKids", func=L(), children=()), R("VKids", func=None, children=(L(), L())))),
+        # single-child fields annotated with exactly a collection-like / iterable node class
+        R("VHolder", body=R("VColl", items=(L(),)), it=None, many=(R("VColl"),)),
+        R("VReq", child=R("VHolder", body=R("VColl"), it=R("VIter", items=(L(),)), many=())),
     )]
